@@ -3,6 +3,7 @@ package main
 import (
 	"fmt"
 	"go/types"
+	"regexp"
 	"strings"
 
 	"golang.org/x/tools/go/ssa"
@@ -151,6 +152,50 @@ func (un *Unit) smtFor(o *Obl, produceModels bool) string { return un.smtForOpt(
 
 // smtForOpt with dropQuant omits quantified hypotheses: the query becomes (nearly) quantifier-free, so a false goal
 // yields a model instead of `unknown`. Dropping hypotheses only weakens them: `unsat` is still a proof, `sat` only a candidate.
+var famRe = regexp.MustCompile(`\|([^|@]+)@[^|]*\|`)
+
+func families(t string) map[string]bool {
+	out := map[string]bool{}
+	for _, m := range famRe.FindAllStringSubmatch(t, -1) {
+		out[m[1]] = true
+	}
+	return out
+}
+
+// smtPruned: quantified hypotheses that speak only about heap components the goal never mentions are left out
+// (sound: fewer hypotheses); unrelated quantified facts over nested arrays otherwise derail the solvers' instantiation.
+func (un *Unit) smtPruned(o *Obl) (string, bool) {
+	goalFam := families(o.Goal + " " + o.Guard)
+	var sb strings.Builder
+	sb.WriteString("(set-logic ALL)\n")
+	sb.WriteString(un.u.prelude())
+	for _, d := range un.u.decls {
+		sb.WriteString(d + "\n")
+	}
+	dropped := false
+	for _, f := range un.facts {
+		if f.At >= o.NFacts {
+			continue
+		}
+		if strings.Contains(f.T, "(forall ") || strings.Contains(f.T, "(exists ") {
+			fam := families(f.T)
+			keep := len(fam) == 0
+			for k := range fam {
+				if goalFam[k] {
+					keep = true
+				}
+			}
+			if !keep {
+				dropped = true
+				continue
+			}
+		}
+		sb.WriteString("(assert " + f.T + ")\n")
+	}
+	sb.WriteString("(assert (not " + implies(o.Guard, o.Goal) + "))\n(check-sat)\n")
+	return sb.String(), dropped
+}
+
 func (un *Unit) smtForOpt(o *Obl, produceModels bool, dropQuant bool) string {
 	var sb strings.Builder
 	if produceModels {
